@@ -89,7 +89,9 @@ def build_plan(choice: Choice, tier: str, family: str):
     else:
         p["quota"] = math.inf
     if family == "single":
-        n_calls = 1
+        # mostly one call per pool; a quarter of the runs make a second call so that per-call state that
+        # survives a call is also seen by the single-call properties
+        n_calls = 2 if d(4, "calls.single") == 3 else 1
     else:
         n_calls = 1 + d(6 if thorough else 4, "calls")
     calls = []
